@@ -45,7 +45,7 @@ P_TARGETS = []
 BUDGET = {'quick': 30.0, 'thorough': 300.0}
 CHUNK = 50
 BOUNDS = {
-    'quick': {'cut': 'every partition of every molecule <= 3 heavy atoms over C N O S P F Cl Br [N+] [O-] [S-] (1 rendering); 43 library '
+    'quick': {'cut': 'every partition of every molecule <= 3 heavy atoms over C N O S P F Cl Br [N+] [O-] [S-] and of every molecule with 4 heavy atoms over C N O (1 rendering); 43 library '
                      'molecules x 8 seeded partitions x {disjoint, 1-3 cuts shared}',
               'poly': '24 monomers x 14 topologies (1-6 units) x 6 end groups where the topology has ends',
               'hexp': '14 hand-written explicit-hydrogen descriptions x 3 topologies'},
@@ -120,7 +120,7 @@ def cases(tier, seed):
                     frag = '#M=' + m + (',#N=' + n if '#N' in topo else '') + (',#T=' + t if has_end else '')
                     yield {'fam': 'poly', 'text': topo + '.{' + frag + '}', 'hfrag': [], 'hweights': []}
     # ---- cut molecules
-    plan = [(1, g2.ALPHA_FULL), (2, g2.ALPHA_FULL), (3, g2.ALPHA_FULL)] if quick else \
+    plan = [(1, g2.ALPHA_FULL), (2, g2.ALPHA_FULL), (3, g2.ALPHA_FULL), (4, g2.ALPHA_CNO)] if quick else \
            [(1, g2.ALPHA_FULL), (2, g2.ALPHA_FULL), (3, g2.ALPHA_FULL), (4, g2.ALPHA_MID)]
     n_part = 8 if quick else 30
     for smi, mol in g2.library():
